@@ -163,7 +163,7 @@ Fixpoint encode (t : ty) (v : value) {struct t} : option bytes :=
   | Tup ts => match v with VList l => enc_seq encode ts l | _ => None end
   | Arr n a => match v with VList l => if (length l =? n)%nat then enc_list (encode a) l else None | _ => None end
   | Enum ds => match v with
-               | VInt z => if (0 <=? z)%Z && existsb (N.eqb (Z.to_N z)) ds then Some [n2b (Z.to_N z)] else None
+               | VInt z => if (0 <=? z)%Z && (z <? 256)%Z && existsb (N.eqb (Z.to_N z)) ds then Some [n2b (Z.to_N z)] else None
                | _ => None
                end
   | Struct _ _ fs => match v with VList l => enc_fields encode fs l | _ => None end
@@ -298,7 +298,7 @@ Fixpoint wf (O : oracles) (tr : bool) (t : ty) (v : value) {struct t} : bool :=
   | Vec a => match v with VList l => len_ok l && forallb (wf O tr a) l | _ => false end
   | Tup ts => match v with VList l => chk_seq (wf O tr) ts l | _ => false end
   | Arr n a => match v with VList l => (length l =? n)%nat && forallb (wf O tr a) l | _ => false end
-  | Enum ds => match v with VInt z => (0 <=? z)%Z && existsb (N.eqb (Z.to_N z)) ds | _ => false end
+  | Enum ds => match v with VInt z => (0 <=? z)%Z && (z <? 256)%Z && existsb (N.eqb (Z.to_N z)) ds | _ => false end
   | Struct _ _ fs => match v with VList l => chk_fields (wf O tr) fs l | _ => false end
   | G1 => match v with VBytes b => (length b =? 48)%nat && g1_ok O tr b | _ => false end
   | G2 => match v with VBytes b => (length b =? 96)%nat && g2_ok O tr b | _ => false end
@@ -337,21 +337,32 @@ Section ExistsF.
     end.
 End ExistsF.
 
-Fixpoint has_bad_pos (O : oracles) (t : ty) (v : value) {struct t} : bool :=
+(* does the value contain a ProofOfSpace satisfying p? *)
+Fixpoint has_pos (p : value -> bool) (t : ty) (v : value) {struct t} : bool :=
   match t with
-  | Opt a => match v with VSome x => has_bad_pos O a x | _ => false end
-  | Vec a | Arr _ a => match v with VList l => existsb (has_bad_pos O a) l | _ => false end
-  | Tup ts => match v with VList l => ex_seq (has_bad_pos O) ts l | _ => false end
-  | Struct _ _ fs => match v with VList l => ex_fields (has_bad_pos O) fs l | _ => false end
+  | Opt a => match v with VSome x => has_pos p a x | _ => false end
+  | Vec a | Arr _ a => match v with VList l => existsb (has_pos p a) l | _ => false end
+  | Tup ts => match v with VList l => ex_seq (has_pos p) ts l | _ => false end
+  | Struct _ _ fs => match v with VList l => ex_fields (has_pos p) fs l | _ => false end
   | Opt2 a b => match v with
                 | VList [oa; ob] =>
-                    (match oa with VSome x => has_bad_pos O a x | _ => false end)
-                    || (match ob with VSome y => has_bad_pos O b y | _ => false end)
+                    (match oa with VSome x => has_pos p a x | _ => false end)
+                    || (match ob with VSome y => has_pos p b y | _ => false end)
                 | _ => false
                 end
-  | PoS => pos_bad_quality O v
+  | PoS => p v
   | _ => false
   end.
+
+(* a v2 proof (version field 1): hashed through its quality-string commitment *)
+Definition pos_is_v2 (v : value) : bool :=
+  match v with
+  | VList [_; _; _; _; VInt version; _; _; _; _; _] => (version =? 1)%Z
+  | _ => false
+  end.
+Definition has_v2_pos : ty -> value -> bool := has_pos pos_is_v2.
+(* the class of finding F-C14-1: a v2 proof whose quality string cannot be computed *)
+Definition has_bad_pos (O : oracles) : ty -> value -> bool := has_pos (pos_bad_quality O).
 
 (* ---------- the convenience functions of the trait ---------- *)
 Definition from_bytes_gen (O : oracles) (tr : bool) (t : ty) (bs : bytes) : option value :=
@@ -364,3 +375,18 @@ Section Hash.
   Definition hash_of (O : oracles) (t : ty) (v : value) : option bytes :=   (* None = panic *)
     match digest O t v with DOk b => Some (H b) | DPanic => None end.
 End Hash.
+
+(* ---------- what the theorems assume about the CLVM length oracle ---------- *)
+(* the length function only depends on the bytes it counts *)
+Definition prog_len_stable_hyp (O : oracles) : Prop := forall tr b n r,
+  prog_len O tr b = Some n -> n <= nlen b -> prog_len O tr (firstn (N.to_nat n) b ++ r) = Some n.
+(* a serialization has at least one byte *)
+Definition prog_len_pos_hyp (O : oracles) : Prop := forall tr b n, prog_len O tr b = Some n -> 1 <= n.
+(* what the validating variant accepts, the trusting variant measures alike *)
+Definition prog_len_trust_hyp (O : oracles) : Prop := forall b n, prog_len O false b = Some n -> prog_len O true b = Some n.
+
+(* an oracle satisfying them (non-vacuity of the hypotheses; every point is valid, every program is one byte) *)
+Definition toy_oracles : oracles :=
+  {| g1_unc := fun _ => true; g1_grp := fun _ => true; g2_unc := fun _ => true; g2_grp := fun _ => true;
+     prog_len := fun _ bs => match bs with [] => None | _ :: _ => Some 1 end;
+     quality := fun _ => None |}.
